@@ -69,6 +69,12 @@ Op ==
         \/ WaitForPendingACKs
         \/ \E p \in Plans1({ << Ack(0) >> }) : Close(p)
         \/ \E p \in Plans1({ << Ack(0), Rule(<< 1 >>), Done >> }) : GetRules(p)
+    ELSE IF Profile = "ASYNC" THEN
+        \/ \E ra \in BOOLEAN, p \in Plans1({ << StatusReply(44) >>, << Ack(0), StatusReply(32) >>, << Noise, Ack(EPERM) >>, << Eintr, StatusReply(44) >> }) :
+               GetStatusAsync(ra, p)
+        \/ Receive
+        \/ \E p \in Plans1({ << Ack(0) >>, << Noise, Ack(0) >> }) : Setter("SetRateLimit", Val(5), "nowait", p)
+        \/ WaitForPendingACKs
     ELSE \* "C16": every setter, both modes
         \/ \E n \in CM!SetterNames, v \in { 0, 1, 2, 65535, 65536 }, md \in { "wait", "nowait" } :
                Setter(n, Val(v), md, << << Ack(0) >> >>)
